@@ -194,6 +194,54 @@ CHECKS["C07"] = dict(
     ref="DESIGN.md section 7 C07",
 )
 
+CHECKS['C13'] = dict(
+    module='TimeAxis',
+    technique='TLA+ reference semantics of the calendar / segment / family / slot / planner arithmetic, model-checked exhaustively (TLC) on a six-year window, + TLC trace validation judging the real calculators, ingestion grouping, query planner and real shard family lookup',
+    text="TimeAxis.tla defines the reference: the Gregorian calendar from its definition, and per interval type the segment, family and slot that contain an instant, the families a range overlaps, and the planner's interval and range selection. TLC checks the reference itself exhaustively: the calendar closed forms against the day-successor rule for every day 1970-2038, and containment, gap-free tiling, idempotence, (segment,index) naming and slot bounds at every hour edge (-1 ms, 0, +1 ms, mid) of 2019-2025 for every interval value, plus the planner properties (stored interval chosen, query interval a whole multiple, range aligned and covering) around every threshold. The real code is then judged by TLC, not by the harness: the driver logs inputs and real outputs of every IntervalCalculator method, CalcSlotRange, the broker's family grouping of rows, RootMetricContext.MakePlan and Shard.GetOrCrateDataFamily / GetDataFamilies on a real engine, and each event must equal the reference operator applied to its input (10^4-10^5 millisecond instants per run, biased to month, leap-day, year and hour edges). The property is universally quantified over instants and interval settings, which a reference specification plus exhaustive bounded checking plus large judged samples reaches and single-date unit tests do not.",
+    note="Trusted: TLC, the Json community module, the driver's [seconds, ms] encoding of int64 timestamps. Assumes TZ=UTC (calculators use time.Local), whole-second intervals (all the option / grammar admit), instants in 2019-2025 (32-bit TLC integers end in 2038). Known finding C13-K1 (family lookup across a segment edge of the month / year calculator) is re-confirmed on every run in the model and on the real shard. CalcTimeWindows (unused by lindb) and the intermediate-node planner entry are not covered.",
+    ref='DESIGN.md section 7 C13',
+)
+
+CHECKS['C14'] = dict(
+    module='Codec',
+    technique='TLC model checking of a bit-level reuse-history model against a reference + TLC trace validation of the real codecs',
+    text='spec/Codec.tla is the reference: for every block of bytes it remembers what was put in and for every encoder/decoder object where its cursor must be, and every action is enabled only if the outputs equal that reference (sequential reads, slot-addressed reads, header slot range, end of block, offsets with width/size/GetBlock ranges, delta-packed integers, bitmaps, snappy chunks, stream puts). Leg M (MCCodec) runs a bit-level transcription of TSDEncoder/TSDDecoder + XOR codec + bit writer/reader at word width 2 in lockstep with the reference and lets TLC enumerate every reuse history of one encoder and one decoder object over two blocks of up to three slots, all partial decodes and slot probes (0.66 M states quick, 6.8 M thorough); switching off any single clean-up step of the Reset paths makes TLC produce a diverging history, so the property provably rests on them. Leg T drives the real pkg/encoding, pkg/bit, pkg/stream and pkg/compress code through seeded histories of pooled and hand-reset objects (all IEEE-754 classes incl. NaN payloads, -0, subnormals; dense/sparse/gapped slot masks up to 700 slots; offsets up to 2^32-1 around every width boundary; int32 deltas of every bit width incl. wrap-around) and TLC judges every recorded answer (about 50 000 events per quick run, 350 000 thorough); equal bytes standing for different content is rejected too. A panic of the code under test, a wrong value, a missed or phantom slot, a wrong width or range is a rejected trace = VIOLATION. Known finding C14-K1 (block ending at slot 65535 never ends sequentially) is reproduced on every run.',
+    note="Trusted base: the Go recorder's interning of bit patterns/byte strings and its run-length form of bitmaps; the transcription of the codecs in MCCodec.tla at reduced widths; TLC. Input breadth is sampled (seeded), history breadth is exhaustive in the model and sampled on the real code. Not covered: TSDDecoder.Seek (unused in lindb; fails over empty slots), calling Bytes() twice on one encoder (second answer has an extra byte), holding a decoder's/uncompressor's answer across its next reset.",
+    ref='DESIGN.md section 7 C14',
+)
+
+CHECKS['C15'] = dict(
+    module='TableFile',
+    technique='TLC model checking of the table mechanisms against a map reference + TLC trace validation of the real table / version code',
+    text="spec/TableFile.tla is the reference: a table is the map made of the strictly ascending subsequence of the offered keys (a key not above the last accepted one is ignored and changes nothing: min/max/count/size after every offer are part of the reference), a reader answers that map and iterates it in key order, a merged iterator answers the key-ordered multiset union of its inputs, a version answers the files whose key range holds a key and one value per file that has it. Leg M (MCTableFile) transcribes the mechanisms -- data area + offset list + rank(key)-1 lookup with 'next offset or end of data', the stream writer with its badKey flag and remembered offset, container/heap Init/Pop/Push+Fix of the merged iterator, min<=key<=max file selection -- and TLC enumerates every sequence of Add/stream operations over 4 keys around the 65536 boundary for 2 files and over 3 keys for 3 files, checking lookups of every key, iteration, the merge in every input order and the file selection against the reference (118 k + 264 k states quick, 1.7 M + 9.4 M thorough); switching off the heap fix, the inclusive max test, the order check of the stream writer or the commit protocol each yields a counterexample. Leg T drives the real kv/table builder (Add and stream, keys dense / sparse / run-shaped / crossing 65536 boundaries / 0 and 2^32-1, out-of-order and repeated keys, values from 0 bytes to megabytes), reads every table back through the reader cache (present keys, neighbours, absent keys, full iteration), merges arbitrary selections of tables (also none, also one twice), flushes overlapping files into a real kv store family and asks FindFiles / FindReaders / Load (also after reopening the store), and builds tables of 10^5 keys judged on sampled lookups and iteration rows; TLC judges every answer (about 35 000 events per quick run). A panic of the code under test is a rejected trace. Known finding C15-K1 (a flush whose values are all empty is dropped without an error by kv/flusher.go) is reproduced on the real code on every run.",
+    note="Trusted base: the Go recorder's interning of values and the (hi,lo) split of keys; the transcription of the mechanisms in MCTableFile.tla; TLC. Key/value breadth is seeded sampling, operation-sequence breadth is exhaustive in the model. Not covered: builder Abandon, reader cache eviction/TTL (C02), compaction and rollup (C03/C04), a stream written but never committed (caller's duty; shown as model deviation).",
+    ref='DESIGN.md section 7 C15',
+)
+
+CHECKS['C16'] = dict(
+    module='Ingest',
+    technique='TLA+ reference semantics of ingestion (canonical form, validity, write window, shard x family partition, calendar) model-checked on every small batch (TLC) + TLC as judge of recorded conversions and routings of the real protobuf / flat / line-protocol ingestion paths',
+    text="Ingest.tla specifies what an accepted metric must look like after conversion (name and namespace with '|' sanitised, the timestamp sent or the current time when unset, tags sorted by key with one value per key taken from the values sent -- the last one for the line protocol --, fields per format including the line protocol's _sum/_last derivation and field-name sanitising, histogram unchanged), which metrics must be rejected as a whole (empty name, no field, empty tag key or value, NaN/Inf, unspecified type, malformed histogram, every limit), and how a batch is routed: rows outside the write window and nothing else are dropped, every other row reaches exactly one (shard, family) group, the shard is below the shard count, the family time is the start of the hour / day / month (by interval type, proleptic calendar in integer arithmetic) that contains the row's timestamp. Hashes are uninterpreted: the tags hash must be an injective function of the canonical tag list, the name hash a function of namespace++name, the shard a function of (tags hash, shard count) -- learned across formats, tag permutations and batch compositions, which is exactly order-independence, independence of the other rows and agreement between formats. TLC checks the reference on every batch of a tiny universe (all tag lists with repeats, all choices among repeated keys, timestamps at window and family edges incl. a leap day, three calculators, a pooled batch object reused across batches). The real ingestion/proto, ingestion/flat and ingestion/influx Parse entry points, BrokerBatchRows eviction, shard and family iterators, BrokerRow.WriteTo and StorageBatchRows are then driven with seeded requests and TLC accepts a trace only if every row and every group is what the specification demands. Three genuine defects found on the unchanged tree are recorded as known findings and re-confirmed on every run.",
+    note="Trusted: TLC and the Json module, the driver's renderers (protobuf marshal, hand-built flat buffers with unsorted / repeated tags and garbage hashes, escaped line protocol) and its logging, the transcription of databaseChannel.Write's routing loop in the driver (the channel objects need a running broker). Value classes (NaN/Inf, malformed histogram) are part of the input description. TZ=UTC. The code reads its own clock: instants within 20 s of a window bound are not generated and the specification tolerates either outcome inside the measured clock interval. The flat path's handling of the request namespace is judged under the named deviation Deviation_FlatIgnoresRequestNamespace in the main trace and strictly in a dedicated trace (finding C16-K3).",
+    ref='DESIGN.md section 7 C16',
+)
+
+CHECKS['C17'] = dict(
+    module='StmtWire',
+    technique='TLA+ statement model with the wire specified as identity and as a tagged envelope (Enc/Dec), envelope model-checked lossless by TLC over a bounded tree universe, + TLC trace validation judging the real sql.Parse, stmt.Marshal/Unmarshal, Query/MetricMetadata (Un)MarshalJSON and the payload MakePlan really sends',
+    text='StmtWire.tla models statement trees (field, number, call, paren, binary, tag filters, not, select item, order-by item, any kind below any kind) and statements as records of clauses; the wire must be the identity on them. The same module specifies how the wire is built - one tagged JSON envelope per kind, omit-empty statement fields, intervals as text - and TLC checks Dec(Enc(x)) = x for every tree up to nesting depth 3 over a small alphabet (6*10^5 trees) and for products of statement clauses, and shows the one design limit (sub-second intervals do not survive). The real code is then judged by TLC: a seeded generator derives thousands of statements from the query grammar (nested calls inside arithmetic, tag conditions, time range, group by time, having, order by, limit, metadata statements), each is parsed twice by the real parser (equal trees, modulo the clock), sent through the real MarshalJSON/UnmarshalJSON and through the payload RootMetricContext.MakePlan builds for the leaf, and the tree received must equal the tree sent; for every expression the real bytes must be exactly the specified envelope and both the real and the specified decoder must return the tree. Expression trees the parser never yields are built directly with hostile strings and float edge values. The property quantifies over all derivations, which a generator over the grammar plus an exhaustive bounded model covers and one-construct-at-a-time unit tests do not.',
+    note="Trusted: TLC, the Json community module, the harness projection of stmt trees (type switch over all node kinds; nil = empty slice; float64 as shortest decimal string) and its lexical rendering of the real bytes (null as empty list, the number under key `val` as string). Statement-level bytes are not compared with the model's EncStmt (only the received statement with the sent one). Known finding C17-K1 (duration literal accepted as field expression -> nil child -> empty payload) is re-confirmed on every run.",
+    ref='DESIGN.md section 7 C17',
+)
+
+CHECKS['C20'] = dict(
+    module='SortedDict',
+    technique='TLA+ reference semantics (sorted map) model-checked on every small key set x probe (TLC) + TLC as judge of recorded answers of the real trie / trie bucket / index kv flusher, reader and merger',
+    text='SortedDict.tla defines the dictionary as a set of (byte string, id) pairs and every query (exact lookup, prefix enumeration, forward and backward iteration, seek, suggestion, like and structured regular-expression filters, id listing and reverse lookup, marshal/unmarshal = identity, merge = union) by comprehension over that set. TLC checks the algebra of this reference exhaustively for every key set of up to 3-4 keys of up to 3 symbols and every probe of up to 4 symbols (iteration is a sorted permutation, keys with a prefix are one contiguous run starting at the least key >= the prefix, seek-then-scan enumerates exactly that run even under the recorded Seek deviation, merge of two parts is their union, a literal-prefix scan is complete only for anchored patterns). The real pkg/trie builder, trie and iterators, index/model trie buckets with small block sizes, bucket rewrites and the index/v1 flusher, reader and merger over a real kv store (flushes, compaction, reopen) are then driven with every small key set over several concrete byte alphabets (0x00/0xFF included), random sets with shared prefixes/suffixes and keys that are prefixes of others, and sets of thousands of keys; every answer is logged and TLC accepts a trace only if each answer equals the reference answer, before and after serialisation and after merging. The property quantifies over key sets and probes, so exhaustive small cases plus judged large random cases is the appropriate level; five genuine defects found on the unchanged tree are recorded as known findings and re-confirmed on every run.',
+    note='Trusted: TLC and the Json community module, the driver\'s logging of inputs/outputs (keys as byte arrays, ids as ints < 2^31), Go\'s regexp for rendering the structured pattern class. Keys of the parts of one bucket are pairwise distinct (ids are created once, C09). Raw Iterator.Seek is judged under the named deviation Deviation_SeekExactOnlyWhenProbeIsPrefix in the main trace and strictly in a dedicated trace (finding C20-K4); Get("") is not probed where a single-key trie {0xFF} can exist (finding C20-K5, probed in its own sub-trace).',
+    ref='DESIGN.md section 7 C20',
+)
+
 NOT_YET = {
 }
 
